@@ -34,7 +34,9 @@ CONSTANTS
   ReaderRestores,   \* TRUE: the unlocked read procedure writes the block back from a valid backup (code as read);
                     \* FALSE: it only serves the backup's content, the block is repaired under the lock
   AllowDeleteFresh, \* finding action (DESIGN 7 row 12): such a deletion hits the backup of a write in flight
-  ReaderCrash       \* TRUE: a reader may die in the middle of its restore write
+  ReaderCrash,      \* TRUE: a reader may die in the middle of its restore write
+  ROReaders         \* readers whose registry is opened read-only (ForReading transactions): their restore write fails
+                    \* (file opened O_RDONLY) and restoreFromCow then just serves the backup's content
 
 VARIABLES
   lay,      \* <<lo, hi>>
@@ -174,7 +176,7 @@ CheckBackup(a) ==
 \* restoreFromCow: copy the backup into the buffer and write it over the block (no lock in phases r, f).
 RestoreFromBackup(a) ==
   /\ Live(a) /\ At(a, "restore")
-  /\ blk' = cbuf[a]
+  /\ blk' = IF a \in ROReaders THEN blk ELSE cbuf[a]
   /\ buf' = [buf EXCEPT ![a] = cbuf[a]]
   /\ Goto(a, <<Phase(a), "restored">>)
   /\ act' = Label("RestoreFromBackup", a, 0)
@@ -237,7 +239,7 @@ Unlock(w) ==
 -----------------------------------------------------------------------------
 (* Crashes.  kind: "plain" (between two steps), "torn" (in the middle of a block write, p quarters
    reached the disk), "cowempty"/"cowpartial" (in the middle of os.WriteFile of the backup).      *)
-CanDie(a) == a \in Wr \/ (ReaderCrash /\ At(a, "restore"))
+CanDie(a) == a \in Wr \/ (ReaderCrash /\ At(a, "restore") /\ a \notin ROReaders)
 Crash(a, kind, p) ==
   /\ Live(a) /\ CanDie(a) /\ crashes < MaxCrash
   /\ \/ /\ kind = "plain" /\ p = 0
@@ -354,6 +356,7 @@ StateRec == [lay |-> lay, blk |-> blk, cow |-> cow, lock |-> lock,
              fin |-> FinalLookup, wimg |-> wimg]
 LayoutsAll   == {<<1,1>>, <<1,2>>, <<2,2>>, <<3,3>>, <<3,4>>, <<4,4>>}
 LayoutsSmall == {<<1,2>>, <<2,2>>, <<4,4>>}
+LayoutsInside == {<<2,2>>, <<4,4>>}
 AllPrefixes  == 1..3
 EmitState == PrintT("S|#|" \o ToString(vars) \o "|#|" \o ToJson(StateRec))
 EmitEdge  == PrintT("E|#|" \o ToString(vars) \o "|#|" \o ToString(vars'))
